@@ -4,7 +4,7 @@
 EXTENDS XmlWriter, Json
 CONSTANTS MaxLen, Mode
 Hostile == {"p", "lt", "gt", "amp", "quot", "apos", "sp", "cdend", "entity", "comment", "lbrace", "rbrace", "dollar", "astral", "rtl", "numref", "tag", "pi",
-            "zwnj", "rlm", "zwsp"}      \* zero-width non-joiner (Persian spelling), right-to-left mark, zero-width space: data, not blanks
+            "zwnj", "rlm", "zwsp", "pct"}      \* zero-width non-joiner (Persian spelling), right-to-left mark, zero-width space: data, not blanks; pct: a percent sign (format directive of the loop rows)
 \* text that LOOKS like a function call the converter acts on elsewhere (in expression cells): in a text place it is text.
 \* Each is a whole string of its own; a hostile class may follow it.
 FunctionLike == {"fn_pulldata", "fn_search", "fn_itext", "fn_now"}
